@@ -198,6 +198,22 @@ pub fn gen_c12(cx: &mut Ctx, prop: &str) {
             emit_text(cx, prop, &text, true);
         }
     }
+    // brace-quoted names of 1..7 characters with a 2-, 3- or 4-byte character at every position, alone and
+    // with significant characters glued behind the closing brace (byte offsets vs character counts)
+    for len in 1..=7usize {
+        for pos in 0..len {
+            for wide in ['é', '名', '😀'] {
+                let name: String = (0..len).map(|i| if i == pos { wide } else { (b'a' + (i as u8 % 3)) as char }).collect();
+                for text in [
+                    format!("{{{}}}", name), format!("({{{}}})", name), format!("{{{}}}&b", name), format!("!{{{}}}|{{{}}}", name, name),
+                    format!("{{{}}})", name), format!("{{{}}}}}", name), format!("{{{}}}b", name), format!("a & ({{{}}})", name), format!("{{{}}} & b", name),
+                    format!("{{{}}}@", name), format!("{{{}}}&", name),
+                ] {
+                    emit_text(cx, prop, &text, true);
+                }
+            }
+        }
+    }
     // every constant spelling directly in front of / behind every operator spelling, with and without a gap
     {
         let consts = ["true", "TRUE", "True", "t", "T", "1", "false", "FALSE", "False", "f", "F", "0"];
@@ -1055,6 +1071,11 @@ pub fn gen_c20(cx: &mut Ctx) {
             let hdr = *rng.pick(&["a,b,b,a,out", "c,a,b,c,a,b,r", "x,y,z,y,x,z,w,w,out", "q,q,p,p"]);
             calls.push((s("csv.from"), vec![Arg::X(format!("{}\n{}\n", hdr, hdr.split(',').map(|_| "0").collect::<Vec<_>>().join(",")))]));
             calls.push((s("csv.from"), vec![Arg::X(s(*rng.pick(&["a,r\n0,1\n0,0\n", "a,b,r\n1,x,0\n", "0,1\n0,0\n1\n", "a,a\n"])))]));
+            // several different faults in ONE record / line: which one is reported must not depend on anything
+            calls.push((s("csv.from"), vec![Arg::X(s(*rng.pick(&[
+                "a,b,r\nyes,no,0\n0,1,1\n1,0,1\n1,1,0\n", "x,y,z,out\nmaybe,1,nope,0\n", "c,b,a,r\nTRUE,FALSE,tru,0\n", "p,q,r,s,t,out\n0,on,off,2,3,1\n",
+                "b,a,r\n0,0,0\n0,1,1\nja,nein,1\n1,1,0\n", "a,b,c,d,e,f,g,out\nA,B,C,D,E,F,G,1\n",
+            ])))]));
             calls.push((s("parse"), vec![Arg::X(s(*rng.pick(&["a & ", "(a | b", "a b c", "{} | {}", "a ) ( b", "$ & #"])))]));
             let e5 = random_tree(&mut rng, 3, &wide, false, 2);
             calls.push((s("evalc"), vec![Arg::F(Val::E(e5)), Arg::V(BTreeMap::new())]));
